@@ -390,7 +390,7 @@ impl AttributeInfo {
             } else if ident == "diplomat" {
                 if attr.path().segments.len() == 2 {
                     let seg = &attr.path().segments.iter().nth(1).unwrap().ident;
-                    if seg == "opaque" {
+                    if seg == "opaque" || seg == "opaque_mut" {
                         opaque = true;
                         return false;
                     } else if seg == "out" {
